@@ -1,33 +1,60 @@
 """C01.a/b: DocumentationAggregator.clean_doc_lines on canonical (or leaderless) blocks."""
 import hc
-from typing import List
+from typing import List, Tuple
 from cminx.aggregator import DocumentationAggregator
 
 N = @@N@@          # number of body lines (shard constant)
 K = @@K@@          # max indent length
 L = @@L@@          # max text length per line
 LEADERLESS = @@LEADERLESS@@
+NCP = @@NCP@@      # N * L
 
 
-def _ok_text(t: str) -> bool:
-    return chr(10) not in t and chr(13) not in t and "]]" not in t
+def _pre(cps, m, ind, km) -> bool:
+    if not (0 <= km <= K) or not hc.cps_ok(cps, bad=(10, 13)):
+        return False
+    for c in ind:
+        if c != 32 and c != 9:
+            return False
+    for x in m:
+        if not (0 <= x <= L):
+            return False
+    return True
 
 
-def _letter(c: str) -> bool:
-    return ("a" <= c <= "z") or ("A" <= c <= "Z")
+def _texts(cps, m):
+    out = []
+    for i in range(N):
+        t = ""
+        for k in range(L + 1):
+            if m[i] == k:
+                t = hc.S(cps[i * L:i * L + k])
+        out.append(t)
+    return out
 
 
-def check(ind: str, texts: List[str]) -> bool:
+def _letter(c) -> bool:
+    return (97 <= c <= 122) or (65 <= c <= 90)
+
+
+def check(cps: $$CPS$$, m: $$MT$$, ind: $$IT$$, km: int) -> bool:
     """
-    pre: len(ind) <= K and all(c == " " or c == chr(9) for c in ind)
-    pre: len(texts) == N and all(len(t) <= L and _ok_text(t) for t in texts)
-    pre: (not LEADERLESS) or (len(ind) == 0 and all(len(t) >= 1 and _letter(t[0]) for t in texts))
+    pre: _pre(cps, m, ind, km)
+    pre: (not LEADERLESS) or (km == 0 and all(m[i] >= 1 and _letter(cps[i * L]) for i in range(N)))
     post: _
     """
+    texts = _texts(cps, m)
+    for t in texts:
+        if "]]" in t:
+            return True          # outside the canonical form (no ']]' inside)
+    indent = ""
+    for k in range(K + 1):
+        if km == k:
+            indent = hc.S(ind[:k])
     if LEADERLESS:
         lines = ["#[[["] + list(texts) + ["#]]"]
     else:
-        lines = hc.canon_lines(ind, texts)
+        lines = hc.canon_lines(indent, texts)
     got = DocumentationAggregator.clean_doc_lines(lines)
     exp = "".join(t + chr(10) for t in texts)
-    return hc.report(got == exp, ind=ind, texts=texts)
+    return hc.report(got == exp, cps=cps, m=m, ind=ind, km=km)
